@@ -3,7 +3,7 @@ from .. import env, model, genval, gentypes
 from ..common import observe, same_outcome, build_type
 from ..ctx import short
 from ..deepeq import deep_typed_eq
-from ..tyast import describe, skeleton
+from ..tyast import Ty, describe, skeleton
 
 PLAN = {
     'quick': {'shards': 16, 'budget': 2600},
@@ -39,8 +39,10 @@ def check_case(ctx, sub, i, ty, T, v, cls_):
     out = observe(env.from_data, v, T)
     verdict = exp.v
     if verdict == model.UNS and exp.why == 'dict-key-collision' and reasons == {'dict-key-collision'} and ty.k in ('dict', 'counter') \
-            and model.is_map(v) and all(model.spec(ty.a[0], kk).v == model.ACC for kk in v):
-        # (top-level mappings only: further out, the enclosing type may have reasons of its own to refuse)
+            and model.is_map(v) and all(model.spec(ty.a[0], kk).v == model.ACC for kk in v) \
+            and all(model.spec(ty.a[1] if ty.k == 'dict' else Ty('int'), vv).v == model.ACC for vv in v.values()):
+        # (top-level mappings only, whose keys and values are each decided members - the collision is then the mapping's own: further
+        #  out or further in, something else may have its own reasons to refuse; found as a false alarm by the thorough tier)
         # every key and every value is a member and nothing else is unsettled: the mapping IS a member (element-wise rule);
         # only which of the colliding entries survives is left open
         ctx.count('key_collision_cases')
